@@ -307,6 +307,18 @@ def run(ctx):
                 bad = vec_eq(lanes, [S.neg(a[1]), a[0]], 'perp')
             else:
                 continue
+            if not bad and mname in ('distance', 'distance_squared') and b is not None:
+                # computed from the component differences only: subtract first, then square (squaring first and subtracting afterwards is the
+                # same real function but loses all accuracy for nearby points, which the property's error bound excludes)
+                A_, B_ = views[0].lanes, views[1].lanes
+                mp = {}
+                for i_, (x_, y_) in enumerate(zip(A_, B_)):
+                    d_ = tm.atom('delta%d' % i_)
+                    mp[tm.f2('fsub', x_, y_)] = d_
+                    mp[tm.f2('fsub', y_, x_)] = tm.f1('fneg', d_)
+                t2 = tm.subst(res, mp) if isinstance(res, tm.T) else None
+                if t2 is None or any(a_ in t2.deps for a_ in list(A_) + list(B_)):
+                    bad = '%s is not computed from the differences self - rhs (products of the operands are formed before subtracting: catastrophic cancellation for nearby points)' % mname
             if not bad and mname in DIVISION_FREE:
                 from C04 import has_division
                 ts_ = [res] if isinstance(res, tm.T) else (lanes or [])
